@@ -35,36 +35,35 @@ Proof. exact ml_name_safe. Qed.
 Print Assumptions label_name_rewriting_is_safe.
 
 (* ---------------- whole documents ---------------- *)
-(* for ALL graphs, titles, legends, tags, attributes: outside the two recorded classes of raw
-   holes (F25: FormatValue results, F26: file / binary name in the node label) and with the
-   caller's own attribute values and the percentage oracle well-formed, the text ComposeDot
-   writes is a syntactically valid DOT document *)
+(* for ALL graphs, titles, legends, tags, names, files, units: with the caller's own attribute
+   values and the percentage oracle well-formed, the text ComposeDot writes is a syntactically
+   valid DOT document.  (Since the repair of F29 / F30 -- FormatValue results and the file /
+   binary name in node labels are escaped -- no hypothesis about profile-derived text is left.) *)
 Theorem dot_well_formed : forall g,
-  in_F25 g = false -> in_F26 g = false ->
   tab_safe (dg_pct g) = true -> forallb attrs_safe (dg_nodes g) = true -> edge_ids_nonneg g = true ->
   dot_syntax_ok (compose_dot g) = true.
 Proof.
-  intros g H25 H26 Hp Ha Hi. apply compose_dot_valid; [|exact Hi].
-  unfold holes_safe, in_F25, in_F26 in *.
-  apply Bool.negb_false_iff in H25. apply Bool.negb_false_iff in H26. now rewrite H25, H26, Hp, Ha.
+  intros g Hp Ha Hi. apply compose_dot_valid; [|exact Hi]. unfold holes_safe. now rewrite Hp, Ha.
 Qed.
 Print Assumptions dot_well_formed.
 
 (* ... whose edges reference only declared nodes, provided every edge of the graph joins two of
    its nodes (what graph.New guarantees since the F21 repair; C05's domain) *)
 Theorem dot_edges_declared : forall g,
-  in_F25 g = false -> in_F26 g = false ->
   tab_safe (dg_pct g) = true -> forallb attrs_safe (dg_nodes g) = true -> edge_ids_nonneg g = true ->
   edges_within_nodes g = true ->
   dot_edges_ok (compose_dot g) = true.
 Proof.
-  intros g H25 H26 Hp Ha Hi. apply compose_dot_valid; [|exact Hi].
-  unfold holes_safe, in_F25, in_F26 in *.
-  apply Bool.negb_false_iff in H25. apply Bool.negb_false_iff in H26. now rewrite H25, H26, Hp, Ha.
+  intros g Hp Ha Hi. apply compose_dot_valid; [|exact Hi]. unfold holes_safe. now rewrite Hp, Ha.
 Qed.
 Print Assumptions dot_edges_declared.
 
-(* ---------------- the recorded findings: the hypotheses cannot be dropped ---------------- *)
+(* the file base name and the bracketed binary name of a node label: any text is a valid body *)
+Theorem label_file_and_binary_are_safe : forall i, qsafe (multiline_printable_name i) = true.
+Proof. exact multiline_safe. Qed.
+Print Assumptions label_file_and_binary_are_safe.
+
+(* ---------------- witnesses ---------------- *)
 Definition w_info (file : string) : ninfo :=
   {| ni_name := "f"; ni_short := "f"; ni_addr := 0; ni_file := file; ni_line := 3; ni_col := 0; ni_obj := "" |}.
 Definition w_node (file : string) : dnode :=
@@ -73,19 +72,14 @@ Definition w_graph (file unit : string) (edges : list dedge) : dgraph :=
   {| dg_title := "t"; dg_url := ""; dg_labels := []; dg_total := 10;
      dg_fv := [(10, "10" ++ unit)]; dg_pct := [(10, "100%")]; dg_nodes := [w_node file]; dg_edges := edges |}.
 
-(* F25: a FormatValue result (a sample unit holding a double quote) written verbatim *)
-Theorem dot_format_value_hole_refuted :
-  let g := w_graph "main.go" ("a" ++ s_quote ++ "b") [] in
-  in_F25 g = true /\ in_F26 g = false /\ dot_syntax_ok (compose_dot g) = false.
-Proof. vm_compute. repeat split; reflexivity. Qed.
-Print Assumptions dot_format_value_hole_refuted.
-
-(* F26: a file name with a double quote in the node label *)
-Theorem dot_file_name_hole_refuted :
-  let g := w_graph ("di" ++ s_quote ++ "r/fi" ++ s_quote ++ "le.go") "ms" [] in
-  in_F25 g = false /\ in_F26 g = true /\ dot_syntax_ok (compose_dot g) = false.
-Proof. vm_compute. repeat split; reflexivity. Qed.
-Print Assumptions dot_file_name_hole_refuted.
+(* the former witnesses of F29 (a sample unit holding a double quote in every formatted value) and
+   F30 (a file name with double quotes in the node label) are well-formed now *)
+Example former_F29_witness_is_well_formed :
+  dot_valid (compose_dot (w_graph "main.go" ("a" ++ s_quote ++ "b") [])) = true.
+Proof. vm_compute. reflexivity. Qed.
+Example former_F30_witness_is_well_formed :
+  dot_valid (compose_dot (w_graph ("di" ++ s_quote ++ "r/fi" ++ s_quote ++ "le.go") "ms" [])) = true.
+Proof. vm_compute. reflexivity. Qed.
 
 (* an edge to a node that is not in the graph (the shape of the repaired F21) is written as N0 *)
 Theorem dot_dangling_edge_refuted :
@@ -171,7 +165,7 @@ Example hypotheses_satisfiable :
   let g := w_graph "main.go" "ms"
              [{| de_from := 1; de_to := 1; de_src := w_info "main.go"; de_dst := w_info "main.go"; de_w := 10;
                  de_inline := true; de_residual := true |}] in
-  in_F25 g = false /\ in_F26 g = false /\ tab_safe (dg_pct g) = true /\ forallb attrs_safe (dg_nodes g) = true /\
+  tab_safe (dg_pct g) = true /\ forallb attrs_safe (dg_nodes g) = true /\
   edge_ids_nonneg g = true /\ edges_within_nodes g = true /\ dot_valid (compose_dot g) = true.
 Proof. vm_compute. repeat split; reflexivity. Qed.
 Definition w_cg_ok : list cgnode :=
